@@ -12,6 +12,7 @@ mod c02;
 mod c03;
 mod c04;
 mod c07;
+mod c17;
 
 struct PropDef {
     id: &'static str,
@@ -45,6 +46,11 @@ const PROPS: &[PropDef] = &[PropDef {
     level: "exploration",
     run: c07::run,
     replay: c07::replay,
+}, PropDef {
+    id: "C17",
+    level: "exploration",
+    run: c17::run,
+    replay: c17::replay,
 }];
 
 fn main() {
